@@ -112,6 +112,19 @@ example :
      | _ => []) =
     [.arrow "[" "_0", .act "_0", .arrow "_0" "_1", .act "_1", .arrow "_1" "_0", .ret "_1" "_0", .deact "_1",
      .open_ "opt", .arrow "_0" "_1", .act "_1", .self "_1", .deact "_1", .end_, .ret "[" "_0", .deact "_0"] := by
-  decide
+  decide +kernel
+
+/-- a black box is shown with its note and never expanded: the call inside `B <- b1` does not appear -/
+example :
+    let m : Module := [
+      ⟨"A", false, false, [⟨"a0", false, [.call "B" "b1", .call "B" "b2"]⟩]⟩,
+      ⟨"B", false, false, [⟨"b1", false, [.call "C" "c0", .ret "ok <: T" "T"]⟩, ⟨"b2", false, [.call "C" "c0"]⟩]⟩,
+      ⟨"C", false, false, [⟨"c0", false, [.action "work"]⟩]⟩]
+    (match generate m 50 "A" "a0" [("B <- b1", "x"), ("B <- b2", "see other diagram")] with
+     | some (.ok o) => o.events
+     | _ => []) =
+    [.arrow "[" "_0", .act "_0", .arrow "_0" "_1", .act "_1", .note "_1", .ret "_0" "_1", .deact "_1",
+     .arrow "_0" "_1", .deact "_0", .noteSide] := by
+  decide +kernel
 
 end SyslModel.SeqDiag
